@@ -12,6 +12,7 @@ import (
 	"regexp"
 	"strconv"
 	"strings"
+	"sync"
 	"testing"
 	"time"
 
@@ -47,6 +48,32 @@ type stepper struct {
 	baseline     int64
 	capN         int
 	viewMetas    []int
+	extK         int
+	stores       []*memStorage
+	extB, extR   int64 // buffer size and raw IPC size of one scripted data batch
+	extCursor    string
+}
+
+// memStorage is an in-memory vgirpc.ExternalStorage that records every upload.
+type memStorage struct {
+	mu      sync.Mutex
+	uploads [][]byte
+}
+
+func (m *memStorage) Upload(data []byte, schema *arrow.Schema, contentEncoding string) (string, error) {
+	m.mu.Lock()
+	defer m.mu.Unlock()
+	m.uploads = append(m.uploads, append([]byte{}, data...))
+	return fmt.Sprintf("https://store.invalid/obj-%d", len(m.uploads)), nil
+}
+
+// take returns the uploads since the last call, and their total size.
+func (m *memStorage) take() [][]byte {
+	m.mu.Lock()
+	defer m.mu.Unlock()
+	u := m.uploads
+	m.uploads = nil
+	return u
 }
 
 var leakRe = regexp.MustCompile(`outstanding=(-?\d+)`)
@@ -91,6 +118,25 @@ func bodySizeAfter(j int) int64 {
 	return n
 }
 
+// batchSizes returns batchBufferSize and the raw IPC size (schema + batch + EOS) of one
+// scripted one-row data batch, computed independently of the code under test.
+func batchSizes() (buf, raw int64) {
+	col := httpx.I64Col(1)
+	rec := array.NewRecordBatch(svc.OutSchema, []arrow.Array{col}, 1)
+	for _, b := range col.Data().Buffers() {
+		if b != nil {
+			buf += int64(b.Len())
+		}
+	}
+	var w bytes.Buffer
+	wr := ipc.NewWriter(&w, ipc.WithSchema(svc.OutSchema), ipc.WithAllocator(httpx.Mem))
+	_ = wr.Write(rec)
+	_ = wr.Close()
+	rec.Release()
+	col.Release()
+	return buf, int64(w.Len())
+}
+
 func (s *stepper) Begin(b replay.Behaviour, rng *rand.Rand) error {
 	a := b[0].Args
 	s.rng = rng
@@ -98,6 +144,8 @@ func (s *stepper) Begin(b replay.Behaviour, rng *rand.Rand) error {
 	s.debug = replay.Bool(a, "debug")
 	s.hookMode = replay.Str(a, "hook")
 	s.capN = replay.Int(a, "capn")
+	s.extK = replay.Int(a, "extk")
+	s.stores = nil
 	key := make([]byte, 32)
 	rng.Read(key)
 	s.inst, s.hooks = nil, nil
@@ -105,6 +153,12 @@ func (s *stepper) Begin(b replay.Behaviour, rng *rand.Rand) error {
 		srv := vgirpc.NewServer()
 		srv.SetDebugErrors(s.debug)
 		svc.Register(srv)
+		var store *memStorage
+		if s.extK > 0 {
+			store = &memStorage{}
+			srv.SetExternalLocation(&vgirpc.ExternalLocationConfig{Storage: store, ExternalizeThresholdBytes: 1})
+		}
+		s.stores = append(s.stores, store)
 		var hk *svc.Hook
 		if s.hookMode != "none" && s.hookMode != "" {
 			hk = &svc.Hook{Mode: s.hookMode}
@@ -122,6 +176,12 @@ func (s *stepper) Begin(b replay.Behaviour, rng *rand.Rand) error {
 		}
 		if !s.compress {
 			_ = h.SetCompressionLevel(0)
+		}
+		if s.extK == 1 || s.extK == 2 {
+			// admit exactly extK uploads per turn: the pre-flight compares
+			// alreadyUploaded (raw IPC bytes) + predicted (buffer bytes) with the cap
+			s.extB, s.extR = batchSizes()
+			h.SetMaxExternalizedResponseBytes(int64(s.extK-1)*s.extR + s.extB)
 		}
 		s.inst = append(s.inst, h)
 		s.hooks = append(s.hooks, hk)
@@ -145,6 +205,11 @@ func (s *stepper) clearJournals(inst int) {
 }
 
 func (s *stepper) restoreCap(h *vgirpc.HttpServer) {
+	if s.extK == 1 || s.extK == 2 {
+		h.SetMaxExternalizedResponseBytes(int64(s.extK-1)*s.extR + s.extB)
+	} else {
+		h.SetMaxExternalizedResponseBytes(0)
+	}
 	if s.capN > 0 {
 		h.SetMaxResponseBytes(bodySizeAfter(s.capN) - 1)
 	} else {
@@ -208,6 +273,7 @@ func (s *stepper) observe(obs replay.Obs, r *httpx.Resp, rid string, unary bool,
 		return nil
 	}
 	obs["status"] = r.Status
+	s.extCursor = ""
 	kinds := []string{}
 	vals := []any{}
 	metas := []int{}
@@ -244,6 +310,40 @@ func (s *stepper) observe(obs replay.Obs, r *httpx.Resp, rid string, unary bool,
 		}
 		kinds = append(kinds, b.Kind)
 	}
+	// externalized data batches arrive as pointers: read them back from the storage so that
+	// the response is compared like an inline one, and report how many uploads this request made
+	nup := 0
+	if st := s.stores[inst-1]; st != nil {
+		ups := st.take()
+		nup = len(ups)
+		ui := 0
+		for ki, k := range kinds {
+			if k != "pointer" || ui >= len(ups) {
+				continue
+			}
+			streams, derr := httpx.DecodeStreams(ups[ui])
+			ui++
+			if derr != "" || len(streams) == 0 {
+				continue
+			}
+			for _, ub := range streams[0] {
+				if ub.Kind == "data" {
+					kinds[ki] = "data"
+					vals = append(vals, s.abstract(ub.Val, unary, x, isProd))
+					if _, has := ub.Meta["user.key"]; has {
+						metas = append(metas, 1)
+					} else {
+						metas = append(metas, 0)
+					}
+					if ub.Cursor != "" {
+						token = true
+						s.extCursor = ub.Cursor
+					}
+				}
+			}
+		}
+	}
+	obs["uploads"] = nup
 	obs["kinds"] = kinds
 	obs["vals"] = vals
 	obs["metas"] = metas
@@ -517,7 +617,9 @@ func (s *stepper) Step(i int, st replay.Step) (replay.Obs, error) {
 		body := httpx.Stream(schema, cols, rows, kv...)
 		r := s.do(inst, "/"+m+"/exchange", "anon", body)
 		data := s.observe(obs, r, "", false, 0, isProd(m), inst)
-		if nc, _ := r.Tokens(); nc != "" {
+		if nc, _ := r.Tokens(); nc == "" && s.extCursor != "" {
+			s.cursor = s.extCursor
+		} else if nc != "" {
 			if nc == s.cursor {
 				obs["__note__"] = "continuation returned the cursor it was given"
 				obs["token"] = "stale cursor"
@@ -537,14 +639,28 @@ func (s *stepper) Step(i int, st replay.Step) (replay.Obs, error) {
 		rid := fmt.Sprintf("rid-%09d", s.rng.Intn(1<<29))
 		body := httpx.InitBody("u_val", sc.Encode(), &x, vgirpc.MetaRequestID, rid)
 		h.SetMaxResponseBytes(0)
-		r0 := s.do(inst, "/u_val", "anon", body)
-		size := int64(len(r0.Body))
-		if replay.Str(a, "rel") == "over" {
-			h.SetMaxResponseBytes(size - 1)
+		if replay.Str(a, "chan") == "ext" {
+			// the pre-flight compares the result batch's buffer size with the cap
+			bsz, _ := batchSizes()
+			if replay.Str(a, "rel") == "over" {
+				h.SetMaxExternalizedResponseBytes(bsz - 1)
+			} else {
+				h.SetMaxExternalizedResponseBytes(1 << 20)
+			}
 		} else {
-			h.SetMaxResponseBytes(size)
+			h.SetMaxExternalizedResponseBytes(0)
+			r0 := s.do(inst, "/u_val", "anon", body)
+			size := int64(len(r0.Body))
+			if replay.Str(a, "rel") == "over" {
+				h.SetMaxResponseBytes(size - 1)
+			} else {
+				h.SetMaxResponseBytes(size)
+			}
 		}
 		s.clearJournals(inst)
+		if st := s.stores[inst-1]; st != nil {
+			st.take()
+		}
 		r := s.do(inst, "/u_val", "anon", body)
 		s.observe(obs, r, rid, true, x, false, inst)
 		s.restoreCap(h)
@@ -554,6 +670,7 @@ func (s *stepper) Step(i int, st replay.Step) (replay.Obs, error) {
 		h := s.inst[inst-1]
 		sc := svc.Script{SID: s.curSID()}
 		h.SetMaxResponseBytes(0)
+		h.SetMaxExternalizedResponseBytes(0)
 		ri := s.do(inst, "/exch/init", "anon", httpx.InitBody("exch", sc.Encode(), nil))
 		cur, call := ri.Tokens()
 		turn := func(n int, cursor string) *httpx.Resp {
@@ -563,12 +680,28 @@ func (s *stepper) Step(i int, st replay.Step) (replay.Obs, error) {
 		r1 := turn(1, cur)
 		size := int64(len(r1.Body))
 		cur2, _ := r1.Tokens()
-		if replay.Str(a, "rel") == "over" {
+		if cur2 == "" {
+			// the token rides inside the uploaded batch when the turn was externalized
+			o1 := replay.Obs{}
+			s.observe(o1, r1, "", false, 0, false, inst)
+			cur2 = s.extCursor
+		}
+		if replay.Str(a, "chan") == "ext" {
+			bsz, _ := batchSizes()
+			if replay.Str(a, "rel") == "over" {
+				h.SetMaxExternalizedResponseBytes(bsz - 1)
+			} else {
+				h.SetMaxExternalizedResponseBytes(1 << 20)
+			}
+		} else if replay.Str(a, "rel") == "over" {
 			h.SetMaxResponseBytes(size - 16)
 		} else {
 			h.SetMaxResponseBytes(size + 64)
 		}
 		s.clearJournals(inst)
+		if st := s.stores[inst-1]; st != nil {
+			st.take()
+		}
 		r := turn(2, cur2)
 		s.observe(obs, r, "", false, 0, false, inst)
 		s.restoreCap(h)
